@@ -200,7 +200,7 @@ package errutil
 // ---- As (C14) ----
 
 //@ func As
-//@   props C14 C13 C07
+//@   props C14 C13 C07 C10
 //@   maypanic
 //@   ensures result == asSpec(err, elemT(typeof(target)), target)
 //@   loop 1: invariant asSpec(err, elemT(typeof(target)), target) == asSpec(c, elemT(typeof(target)), target)
